@@ -641,6 +641,13 @@ func (c *Ctx) keyMapVal(mt *types.Map) string {
 	return c.regHeap("MV:"+typeKey(mt), heapInfo{sort: ArraySort(SRef, ArraySort(ks, vs)), elem: vs})
 }
 
+// keyMapVisited: ghost state of map iteration - the set of keys already produced by the range loop over the map
+// (one active iteration per map object is modelled).
+func (c *Ctx) keyMapVisited(mt *types.Map) string {
+	ks := c.sortOf(mt.Key())
+	return c.regHeap("MVIS:"+typeKey(mt), heapInfo{sort: ArraySort(SRef, ArraySort(ks, SBool)), elem: SBool})
+}
+
 func (c *Ctx) keyMapLen(mt *types.Map) string {
 	return c.regHeap("ML:"+typeKey(mt), heapInfo{sort: ArraySort(SRef, c.idxSort()), elem: c.idxSort()})
 }
